@@ -156,7 +156,9 @@ Admissible(c) ==
     /\ (c.lp # "none") => P(c) <= 6
     /\ c.rel \in {"scale", "negscale"} => (c.cexp = 0 /\ (c.std => \A j \in 1..P(c) : c.s2[j] > 0))
     /\ ~FullProduct =>
-          /\ (c.cexp # 0) => (c.solver = "full" /\ c.wp = "ones" /\ c.lp = "none")
+          \* other scales: the exact solver, and the randomised branch for complex data (scipy's svds, whose
+          \* convergence test is absolute)
+          /\ (c.cexp # 0) => (c.wp = "ones" /\ c.lp = "none" /\ (c.solver = "full" \/ (c.dtype = "complex" /\ ~c.std)))
           /\ (c.solver # "full") => (c.wp = "ones" /\ c.lp = "none" /\ ~c.std)
           /\ (c.dtype = "complex") => (c.lp = "none" /\ (c.wp = "ones" \/ c.solver = "full"))
     /\ P(c) <= 6
